@@ -44,7 +44,7 @@ func (C08) Budget(tier string) (int, time.Duration) {
 
 func (C08) Generate(t *tape.Tape, tier string) interface{} {
 	thorough := tier == "thorough"
-	o := gen.Options{MinFiles: 3, MaxFiles: 6, Controllers: true, Interfaces: true, Overloads: true, Lambdas: true, Anonymous: t.Bool(1, 2), BigBodies: t.Bool(1, 2), CollidingPkgs: t.Bool(2, 3), TwinNames: true, Getters: true, SamePkgConflict: t.Bool(1, 2), Services: true}
+	o := gen.Options{MinFiles: 3, MaxFiles: 6, Controllers: true, Interfaces: true, Overloads: true, Lambdas: true, Anonymous: t.Bool(1, 2), BigBodies: t.Bool(1, 2), CollidingPkgs: t.Bool(2, 3), TwinNames: true, Getters: true, SamePkgConflict: t.Bool(1, 2), Services: true, ServiceMethod: true}
 	if thorough {
 		o.MaxFiles = 9
 	}
